@@ -204,3 +204,97 @@ Definition close (tol : dyad) (model impl : dyad) : bool :=
 Definition mclose (tol : dyad) (a b : M) : bool := all2 (all2 (close tol)) a b.
 
 End LD.
+
+(* ------------------------------------------------------------------ *)
+(* exact rational matrices with ONE common denominator: integer numerators (bigZ) over a positive
+   bigZ denominator.  Products and sums are integer matrix operations (a few gcds per matrix
+   operation instead of one per scalar operation); the inverse is fraction-free Gauss-Jordan
+   (Bareiss): every intermediate entry is an integer minor and every division is exact.     *)
+Module LF.
+
+Definition z0 := BigZ.zero.
+Definition z1 := BigZ.one.
+Definition zis0 (x : bigZ) : bool := BigZ.eqb x z0.
+Definition ZM := list (list bigZ).
+Definition ZOps : MxOps := ListOps bigZ z0 z1 BigZ.add BigZ.mul BigZ.sub BigZ.opp (fun x => x) zis0.
+
+Record fm := mkF { fnum : ZM; fden : bigZ }.
+
+Definition zscale (c : bigZ) (a : ZM) : ZM := map (map (BigZ.mul c)) a.
+Definition zadd (a b : ZM) : ZM := ladd bigZ BigZ.add a b.
+
+(* bring two matrices to a common denominator *)
+Definition common (a b : fm) : ZM * ZM * bigZ :=
+  if BigZ.eqb (fden a) (fden b) then (fnum a, fnum b, fden a) else
+  let g := BigZ.gcd (fden a) (fden b) in
+  let da := BigZ.div (fden a) g in let db := BigZ.div (fden b) g in
+  (zscale db (fnum a), zscale da (fnum b), BigZ.mul da (fden b)).
+
+Definition fadd (a b : fm) : fm := let '(x, y, d) := common a b in mkF (zadd x y) d.
+Definition fmul (m n p : nat) (a b : fm) : fm :=
+  mkF (lmul bigZ z0 BigZ.add BigZ.mul m n p (fnum a) (fnum b)) (BigZ.mul (fden a) (fden b)).
+Definition fopp (a : fm) : fm := mkF (lopp bigZ BigZ.opp (fnum a)) (fden a).
+Definition ftr (m n : nat) (a : fm) : fm := mkF (ltr bigZ z0 m n (fnum a)) (fden a).
+
+(* fraction-free Gauss-Jordan on [A | I]: after column k every entry is a (k+1)-minor; [prev] is the previous pivot *)
+Definition ff_row (p prev : bigZ) (c : bigZ) (prow row : list bigZ) : list bigZ :=
+  map (fun q => BigZ.div (BigZ.sub (BigZ.mul p (snd q)) (BigZ.mul c (fst q))) prev) (combine prow row).
+
+Definition ff_eliminate (st : ZM * bigZ * bigZ) (col : nat) : ZM * bigZ * bigZ :=
+  let '(a, prev, sign) := st in
+  match find_pivot bigZ z0 zis0 col (skipn col a) col with
+  | None => (a, prev, sign)
+  | Some pi =>
+      let a1 := if Nat.eqb pi col then a else swap_rows bigZ col pi a in
+      let sign1 := if Nat.eqb pi col then sign else BigZ.opp sign in
+      let prow := nth col a1 [] in
+      let p := nth col prow z0 in
+      (map (fun q => if Nat.eqb (fst q) col then snd q
+                     else ff_row p prev (nth col (snd q) z0) prow (snd q))
+           (combine (seq 0 (length a1)) a1), p, sign1)
+  end.
+
+(* inverse of N/d: the reduced right block R satisfies N * R = p * I (p = last pivot = +- det N), so (N/d)^-1 = d R / p *)
+Definition finv (n : nat) (a : fm) : fm :=
+  let aug := map (fun q => snd q ++ idrow bigZ z0 z1 n (fst q)) (combine (seq 0 n) (fnum a)) in
+  let '(red, p, _) := fold_left ff_eliminate (seq 0 n) (aug, z1, z1) in
+  let r := map (skipn n) red in
+  let g := BigZ.gcd (fden a) p in
+  let d := BigZ.div (fden a) g in let p' := BigZ.div p g in
+  if BigZ.ltb p' z0 then mkF (zscale (BigZ.opp d) r) (BigZ.opp p') else mkF (zscale d r) p'.
+
+Definition FOps : MxOps := {|
+  mx := fun _ _ => fm;
+  mmul := fmul;
+  madd := fun _ _ a b => fadd a b;
+  mopp := fun _ _ a => fopp a;
+  mtr := ftr;
+  minv := finv;
+  mid := fun n => mkF (lident bigZ z0 z1 n) z1;
+  mzero := fun m n => mkF (lzero bigZ z0 m n) z1;
+  usub := fun m1 _ _ a => mkF (firstn m1 (fnum a)) (fden a);
+  dsub := fun m1 _ _ a => mkF (skipn m1 (fnum a)) (fden a);
+  lsub := fun _ n1 _ a => mkF (map (firstn n1) (fnum a)) (fden a);
+  rsub := fun _ n1 _ a => mkF (map (skipn n1) (fnum a)) (fden a);
+  colmx := fun _ _ _ a b => let '(x, y, d) := common a b in mkF (x ++ y) d;
+  mis0 := fun _ _ a => forallb (forallb zis0) (fnum a);
+  mrowmask := fun _ _ f a => mkF (map (fun p => if f (fst p) then snd p else map (fun _ => z0) (snd p))
+                                      (combine (seq 0 (length (fnum a))) (fnum a))) (fden a);
+|}.
+
+(* a matrix of doubles: integer mantissas over the common denominator 2^k *)
+Definition of_dyadic (nums : list (list Z)) (k : Z) : fm :=
+  mkF (map (map BigZ.of_Z) nums) (BigZ.pow (BigZ.of_Z 2) (BigZ.of_Z k)).
+
+(* | num/den - m/2^k |  <=  (1 + |m|/2^k) / tolinv      (den, tolinv > 0) *)
+Definition close_cell (tolinv : bigZ) (den : bigZ) (twok : bigZ) (num : bigZ) (m : bigZ) : bool :=
+  BigZ.leb (BigZ.mul tolinv (BigZ.abs (BigZ.sub (BigZ.mul num twok) (BigZ.mul m den))))
+           (BigZ.mul den (BigZ.add twok (BigZ.abs m))).
+
+Definition mclose (tolinv : bigZ) (model : fm) (impl : list (list Z)) (k : Z) : bool :=
+  let twok := BigZ.pow (BigZ.of_Z 2) (BigZ.of_Z k) in
+  BigZ.ltb z0 (fden model) &&
+  all2 (fun r1 r2 => all2 (fun x y => close_cell tolinv (fden model) twok x y) r1 r2)
+       (fnum model) (map (map BigZ.of_Z) impl).
+
+End LF.
